@@ -9,10 +9,13 @@
   component drops the old value, `Entry::remove` drops the detached value, `clear` drops every
   stored value, a write drops the overwritten value, and nothing else is dropped.
 
-  `clone`, `clone_from` and deserialization (independent ownership of the copies) are covered by
-  the correspondence check's ledger, and at the model level in C10.
+  `clone` owns copies with identities of their own (`C04_clone_owns_copies`); `clone_from` drops
+  exactly what the destination owned, each value once (`C04_clone_from_drops`) and then owns
+  copies of the source (C10).  Ownership of deserialized values and what a failing
+  deserialization drops are decided by the correspondence check's ledger.
 -/
 import BroodModel.Lemmas.Ledger
+import BroodModel.Lemmas.CloneFromDrops
 
 namespace Brood
 
@@ -295,6 +298,27 @@ theorem C04_remove_drops {w w' : World} {id : Ident} {drops : List Val} (hi : In
     (e : w.remove id = .ok (w', drops)) : drops = (w.entity id).getD [] :=
   (remove_entity hi e).2.2.1
 
+/-- **Replaced by `clone_from`**: the values dropped by `clone_from` are exactly the component
+values and resources the destination owned before, each once — whether their table was
+overwritten in place or cleared because the source has no table of that shape. -/
+theorem C04_clone_from_drops {d s fin : World} {drops : List Val} (hd : Inv d) (hs : Inv s)
+    (hn : d.n = s.n) {e : Nat} (h : World.cloneFrom d s e = .ok (fin, drops)) : drops.Perm d.values :=
+  cloneFrom_drops hd hs hn h
+
+/-- **Values produced by `clone` are owned independently**: the clone owns one copy per value of
+the original (same order), and a copy's ledger identity differs from every identity of epoch 0. -/
+theorem C04_clone_owns_copies {w w' : World} (hi : Inv w) {e next : Nat} (h : w.clone e next = .ok w') :
+    w'.values = w.values.map (cloneVal e) ∧
+    (0 < e → ∀ v ∈ w'.values, ∀ u : Val, u.id < epochBase → v.id ≠ u.id) := by
+  refine ⟨clone_values hi h, ?_⟩
+  intro he v hv u hu
+  rw [clone_values hi h] at hv
+  obtain ⟨v0, _, rfl⟩ := List.mem_map.mp hv
+  unfold cloneVal epochBase at *
+  simp only
+  have : e * 1048576 ≥ 1048576 := Nat.le_mul_of_pos_left _ he
+  omega
+
 /-- Non-vacuity: a history with drops, evaluated. -/
 example :
     (match runD (World.init 3 [⟨9, 90⟩])
@@ -310,3 +334,5 @@ end Brood
 #print axioms Brood.C04_conservation
 #print axioms Brood.C04_exactly_once
 #print axioms Brood.C04_remove_drops
+#print axioms Brood.C04_clone_from_drops
+#print axioms Brood.C04_clone_owns_copies
